@@ -272,6 +272,28 @@ func c19Default(cls int, n int64) V {
 		fw = wn == 3 && werr == nil && ubuf.Len() == before+3 && bytes.HasSuffix(ubuf.Bytes(), []byte{1, 2, 3})
 	}
 	cl := tr.Close() == nil && tr.IsOpen() && tr.Open() == nil && tr.Flush(context.Background()) == nil
+	// a transport stays the transport of ITS object: after Close (a no-op for the generic transport),
+	// other transports are created over other objects and closed; the first handle must still report
+	// its own object's figure
+	if under != nil {
+		for k := 0; k < 3; k++ {
+			o2 := &c19Readable{n: int(n) + 11*(k+1)}
+			t2 := apache.NewDefaultTransport(o2)
+			if t2.RemainingBytes() != uint64(int(n)+11*(k+1)) && int(n)+11*(k+1) > 0 {
+				cl = false
+			}
+			if tr.RemainingBytes() != rem {
+				cl = false
+			}
+			if k%2 == 0 {
+				t2.Close()
+			}
+			if tr.RemainingBytes() != rem {
+				cl = false
+			}
+			tr.Close()
+		}
+	}
 	return Ls(U64(rem), Bo(isBT), Bo(fw), Bo(cl))
 }
 
@@ -316,6 +338,17 @@ func init() {
 							Ls(I(0), I(h), Bs(d)), Ls(I(3), I(1-h)), Ls(I(1), I(1-h), I(sz+8)), Ls(I(3), I(h)),
 							Ls(I(0), I(1-h), Bs(d[:7])), Ls(I(1), I(h), I(64)))))
 					}
+				}
+			}
+			// ---- 1c. Close on a buffer that has grown large (capacity beyond 64 KiB .. 1 MiB): it must
+			//          be emptied like any other ----
+			for _, sz := range []int{65536, 65537, 70000, 200000} {
+				for _, h := range []int{0, 1} {
+					d := make([]byte, sz)
+					g.R.Read(d)
+					g.Add("hist-large-close", Ls(I(0), Str(""), Ls(
+						Ls(I(0), I(h), Bs(d)), Ls(I(3), I(1-h)), Ls(I(4)), Ls(I(3), I(h)), Ls(I(3), I(1-h)),
+						Ls(I(1), I(h), I(16)), Ls(I(0), I(1-h), Bs(d[:9])), Ls(I(1), I(h), I(64)), Ls(I(3), I(h)))))
 				}
 			}
 			// ---- 2. random histories ----
